@@ -588,10 +588,18 @@ def read_pandas(
     need = 1 if header is None else 2
     if isinstance(header, int):
         firstrow += header
+    # pandas ignores blank lines in front of the header line
+    skip_blank = header is not None and kwargs.get("skip_blank_lines", True)
+
+    def is_blank(line):
+        return not line.decode(kwargs.get("encoding") or "utf-8", "replace").strip()
+
     if kwargs.get("comment"):
         # if comment is provided, step through lines of b_sample and strip out comments
         parts = []
         for part in b_sample.split(b_lineterminator):
+            if skip_blank and len(parts) == firstrow and is_blank(part):
+                continue
             split_comment = part.decode().split(kwargs.get("comment"))
             if len(split_comment) > 1:
                 # if line starts with comment, don't include that line in parts.
@@ -602,6 +610,10 @@ def read_pandas(
             if len(parts) > max(lastskiprow + need, firstrow + need):
                 break
     else:
+        if skip_blank:
+            lines = b_sample.split(b_lineterminator)
+            while firstrow < len(lines) - 1 and is_blank(lines[firstrow]):
+                firstrow += 1
         parts = b_sample.split(
             b_lineterminator, max(lastskiprow + need, firstrow + need)
         )
